@@ -17,6 +17,8 @@ import Dsi.Lemmas.FindChange
 import Dsi.Lemmas.LenMono
 import Dsi.Lemmas.Kraft
 import Dsi.Lemmas.Kraft2
+import Dsi.Glue.StatsDriver
+import Dsi.Lemmas.CodesBCodes
 namespace Dsi
 
 /-! ### monotone lengths -/
@@ -256,5 +258,30 @@ example : LeastChange (fun x => if x < 5 then 0 else 1) 0 5 := by
   refine ⟨by decide, by decide, ?_⟩
   intro y _ hy
   simp [hy]
+
+end Dsi
+
+namespace Dsi
+
+/-- the closed forms the driver uses as the reference for codewords too long to build are the
+    lengths of the published codewords -/
+theorem specLenBig_sound (code : String) (p v x : Nat) (h : specLenBig code p v = some x) :
+    specLen code p v = some x := by
+  unfold specLenBig at h
+  split at h
+  · -- unary
+    cases h
+    simp [specLen, Spec.codeword, Spec.unary, CodesB.unaryBits_length]
+  · -- rice
+    cases h
+    simp [specLen, Spec.codeword, rice_length, lenRice]
+  · -- golomb
+    split at h
+    · cases h
+    · cases h
+      simp [specLen, Spec.codeword, Spec.golomb, Spec.unary, CodesB.unaryBits_length]
+  · cases h
+
+example : specLenBig "rice" 0 (2 ^ 32) = some (2 ^ 32 + 1) := by decide
 
 end Dsi
